@@ -14,7 +14,7 @@
    enter C03_global_error_partial as the hypothesis on e and are measured numerically by the check. *)
 From Coq Require Import Reals ZArith QArith Qcanon List Lia Bool.
 From Coquelicot Require Import Coquelicot.
-From RV Require Import Proofs.VacuityA Base.Num Base.Vec Mech.Intg Spec.SpecDyn Inst Proofs.QcInst Proofs.ConvProofs Proofs.ConvReal Proofs.DerProofs Proofs.EulerConv Proofs.EulerConvVec Proofs.RK4Conv Mech.Colloc Proofs.CollocConv Proofs.CollocOrder2 Proofs.RK4Order4.
+From RV Require Import Proofs.VacuityA Base.Num Base.Vec Mech.Intg Spec.SpecDyn Inst Proofs.QcInst Proofs.ConvProofs Proofs.ConvReal Proofs.DerProofs Proofs.EulerConv Proofs.EulerConvVec Proofs.RK4Conv Mech.Colloc Proofs.CollocConv Proofs.CollocOrder2 Proofs.RK4Order4 Proofs.RK4QuadOrder4.
 Import ListNotations.
 
 Theorem C03_rk4_order_conditions :
@@ -388,6 +388,32 @@ Proof. exact (rk4_converges_order4_closed f x t0 T B L F2 F3 F4 M). Qed.
 Print Assumptions C03_rk4_converges_order4_scalar_autonomous.
 
 
+(* the VALUE OF ocp.integral under rk at order 4 (scalar autonomous x' = f(x), one quadrature state with integrand g(x)):
+   the quadrature accumulated by the model's loop — evaluated at the NUMERICAL stage states — is within Cq h^4 of the
+   Riemann integral of g along the exact solution; only |g'|..|g''''| are bounded, explicit Cq (Proofs/RK4QuadOrder4.v) *)
+Theorem C03_rk4_integral_converges_order4 (f g x : R -> R) (t0 T B L F2 F3 F4 G1 G2 G3 G4 : R) (M : nat) :
+  0 < T -> 0 < L -> (0 < M)%nat ->
+  (forall s k, (k <= 4)%nat -> ex_derive_n f k s) ->
+  (forall s, Rabs (Derive_n f 1 s) <= L) -> (forall s, Rabs (Derive_n f 2 s) <= F2) ->
+  (forall s, Rabs (Derive_n f 3 s) <= F3) -> (forall s, Rabs (Derive_n f 4 s) <= F4) ->
+  (forall s k, (k <= 4)%nat -> ex_derive_n g k s) ->
+  (forall s, Rabs (Derive_n g 1 s) <= G1) -> (forall s, Rabs (Derive_n g 2 s) <= G2) ->
+  (forall s, Rabs (Derive_n g 3 s) <= G3) -> (forall s, Rabs (Derive_n g 4 s) <= G4) ->
+  (forall t, is_derive x t (f (x t))) ->
+  (forall t, t0 <= t <= t0 + T -> Rabs (f (x t)) <= B) ->
+  let h := T / INR M in
+  let Q := T * L in
+  let PQ := 1 + Q / 2 + Q ^ 2 / 6 + Q ^ 3 / 24 in
+  let L' := L * PQ in
+  let E := (rk4_c5 B L F2 F3 F4 T + rk4_K5 B L F2 F3 F4 / 120) * ((exp (T * L') - 1) / L') in
+  let Cq := T * (G1 * PQ * E + rk4_cq5 B L F2 F3 F4 G1 G2 G3 G4 T + rk4_KA5 B L F2 F3 G1 G2 G3 G4 / 120) in
+  let sys := mkSys (fun X (_ : R) => [f (nth 0 X 0)]) (fun X (_ : R) => [g (nth 0 X 0)]) in
+  let st := @discrete_system R ROps (intg_rk sys) M 1 [x t0] T t0 in
+  Rabs (nth 0 (ds_quad st) 0 - RInt (fun s => g (x s)) t0 (t0 + T)) <= Cq * h ^ 4.
+Proof. exact (rk4_integral_converges_order4 f g x t0 T B L F2 F3 F4 G1 G2 G3 G4 M). Qed.
+Print Assumptions C03_rk4_integral_converges_order4.
+
+
 Theorem C03_dc_degree1_coefficients :
   forall (F : Type) (OF : Ops F), FieldLaws OF -> (@o2 F OF) <> o0 ->
   (coeff_C [o1 : F] = [[oopp o1]; [o1]] /\ coeff_D [o1 : F] = [o0; o1] /\ coeff_B [o1 : F] = [o1]) /\
@@ -396,7 +422,7 @@ Proof. intros F OF Fl H2. split; [exact (coeff_radau1 Fl)|exact (coeff_legendre1
 Print Assumptions C03_dc_degree1_coefficients.
 
 Example C03_dc_nonvacuous : True /\ True.
-Proof. pose proof dc_radau1_decay as _. pose proof dc_legendre1_decay as _. pose proof dc_legendre1_decay_order2 as _. pose proof rk4_converges_order4_sin as _. split; exact I. Qed.
+Proof. pose proof dc_radau1_decay as _. pose proof dc_legendre1_decay as _. pose proof dc_legendre1_decay_order2 as _. pose proof rk4_converges_order4_sin as _. pose proof rk4_integral_order4_sin as _. split; exact I. Qed.
 
 (* further witnesses that the hypotheses of this file's theorems are met by realistic inputs (N = 1, M = 1, no controls,
    t0 = 0, concrete grids / collocation points): proved in Proofs/VacuityA.v by the vacuity audit *)
